@@ -139,6 +139,14 @@ def check_per_interval(spec, model, data, fit_desc, rtol):
             out.append(("conditioning_values_not_references", {"dim": i, "got": dist.conditioning_values, "references": refs}))
         tmpl, pars = TEMPLATES[d["template"]]
         est = []
+        # the members of an interval have their conditioning value inside the interval's reported boundaries
+        bl = np.asarray(dist.conditioning_interval_boundaries, dtype=float)
+        for k, mk in enumerate(masks):
+            cv_ = np.asarray(data[mk, j], dtype=float)
+            if len(cv_) and bl.shape == (len(masks), 2) and not (np.all(cv_ >= bl[k, 0] - 1e-12 * max(1.0, abs(bl[k, 0]))) and np.all(cv_ <= bl[k, 1] + 1e-12 * max(1.0, abs(bl[k, 1])))):
+                out.append(("interval_members_outside_reported_boundaries", {"dim": i, "interval": k, "boundaries": bl[k],
+                                                                             "members_range": [float(cv_.min()), float(cv_.max())]}))
+                break
         for k, mk in enumerate(masks):
             own = np.sort(data[mk, i])
             if not np.array_equal(np.sort(np.asarray(dist.data_intervals[k], dtype=float)), own):
@@ -408,7 +416,9 @@ SPECS_3D = [
 ]
 BIG_SLICERS = [("width", 0.5, {"min_n_points": 20}), ("width", 0.3, {"min_n_points": 20, "right_open": False, "reference": "left"}),
                ("number", 6, {"min_n_points": 20}), ("number", 5, {"min_n_points": 20, "include_max": False, "reference": "median"}),
-               ("points", 60, {}), ("points", 75, {"last_full": False, "min_n_points": 30})]
+               ("points", 60, {}), ("points", 75, {"last_full": False, "min_n_points": 30}),
+               # an explicit range that ends below the largest observation (and starts above the smallest)
+               ("number", 4, {"min_n_points": 20, "value_range": (0.4, 3.2)}), ("width", 0.6, {"min_n_points": 20, "value_range": (0.4, 3.2)})]
 
 
 def fit_variants(spec):
@@ -430,7 +440,7 @@ def fit_variants(spec):
 
 def main(ctx):
     ctx.rule = ("A1: 4 closed-form templates (one with a leading fixed parameter) x 6 slicer settings x ALL 7! = 5040 row orders of a 7-row matrix with ties (exact "
-                "comparison 1e-9). A2: 9 two-dimensional (3 of them with a fixed parameter that precedes a dependent one, 1 with a dependence function nested in another) + 3 three-dimensional structures x 6 slicer settings x n in {300, 2000(, "
+                "comparison 1e-9). A2: 9 two-dimensional (3 of them with a fixed parameter that precedes a dependent one, 1 with a dependence function nested in another) + 3 three-dimensional structures x 8 slicer settings (two with an explicit value_range inside the data range) x n in {300, 2000(, "
                 "20000)} x every fit-description assignment x a fixed family of 32 row permutations (reverse, interleave, rotations, "
                 "all 23 non-identity orders of four blocks, ascending/descending by column). A3: explicit-state BFS over histories "
                 "of fit(D_a, order_b) events on the real model. evaluations = model fits.")
